@@ -148,6 +148,37 @@ func c10(r *core.Run) {
 	srcRule(r, "C10.SRC", scope, true)
 	sortDet(r, "C10.SORTDET", scope)
 	c10Tie(r, scope)
+	// results are ordered by function name: the order is determined only if names are unique, i.e. the name given to
+	// a result identifies receiver and package (RelString/String), not the bare method name
+	nName := 0
+	for _, fn := range p.FuncsIn("pkg/diff") {
+		core.InstrsOf(fn, func(in ssa.Instruction) {
+			st, ok := in.(*ssa.Store)
+			if !ok {
+				return
+			}
+			fa, ok := st.Addr.(*ssa.FieldAddr)
+			if !ok || !core.IsNamed(fa.X.Type(), p.ModPath+"/pkg/diff", "FingerprintResult") || core.FieldName(fa.X.Type(), fa.Field) != "FunctionName" {
+				return
+			}
+			nName++
+			okName := true
+			for _, o := range core.Origins(st.Val) {
+				c, isCall := o.(*ssa.Call)
+				if !isCall {
+					okName = false
+					continue
+				}
+				switch core.CalleeName(&c.Call) {
+				case "(*" + ssaPkgPath + ".Function).RelString", "(*" + ssaPkgPath + ".Function).String":
+				default:
+					okName = false
+				}
+			}
+			r.Check(okName, "C10.SORTKEY", core.FuncName(fn)+"#FunctionName", st.Pos(), "a result is named by the function's qualified name (receiver included)", "a result is named by "+core.Canon(st.Val)+": methods of different types share a name, the sort by name leaves them in map-iteration order, and the order of functions (and which same-named method the diff compares) changes from run to run")
+		})
+	}
+	r.Floor("C10.SORTKEY", "names given to fingerprint results", nName, 2)
 }
 
 // ---- POOL
